@@ -421,7 +421,50 @@ def check(ctx):
             else:
                 r5.bad(V(r5.id, main, "commands-loop:%s" % ",".join(it[2] for it in loops),
                          "commands.ts does not loop over `commands` unfiltered with the wrapper on every body path (loops: %s)" % [it[2] for it in loops]))
-    r5.require_floor(8, "template paths")
+    # ... and `command.name` is the function's identifier exactly as written: CommandInfo.name = <fn>.sig.ident.to_string(), no unraw / case / trim step
+    # (the TypeScript-side names are derived separately; Tauri registers the command under the identifier's own spelling)
+    from srclib import walk_block as _wb, expr_text as _et, pat_bindings as _pb, stmt_exprs as _se, walk as _walk
+    sites = []
+    for fn in S.fns:
+        if fn.body is None or "/analysis/" not in "/" + fn.file:
+            continue
+        for e in _wb(fn.body):
+            if e.get("k") == "struct" and e["path"][-1] == "CommandInfo":
+                for fe in e["fields"]:
+                    if fe["member"] == "name":
+                        sites.append((fn, fe["expr"]))
+    for fn, ex in sites:
+        seen_ = 0
+        while ex.get("k") == "path" and len(ex["segs"]) == 1 and seen_ < 4:
+            seen_ += 1
+            init = None
+            for e in _wb(fn.body):
+                pass
+            def find_let(stmts, name):
+                found = None
+                for st in stmts or []:
+                    if isinstance(st, dict) and st.get("k") == "let" and st.get("init") is not None and name in _pb(st["pat"]):
+                        found = st["init"]
+                    for e2 in (_se(st) if isinstance(st, dict) else []):
+                        for x in _walk(e2):
+                            for key in ("then", "stmts", "body"):
+                                v = x.get(key)
+                                if isinstance(v, list):
+                                    r_ = find_let(v, name)
+                                    found = r_ if r_ is not None else found
+                return found
+            init = find_let(fn.body, ex["segs"][0])
+            if init is None:
+                break
+            ex = init
+        t = _et(ex)
+        if re.match(r"^\w+\.sig\.ident\.to_string\(\)$", t):
+            r5.ok("%s: CommandInfo.name = %s" % (fn.qname, t))
+        else:
+            r5.bad(V(r5.id, fn.qname, "command-name-transformed:%s" % t[:60], "CommandInfo.name (the invoke string) is `%s`, not the function identifier as written" % t[:80], fn.file, fn.line))
+    if not sites:
+        r5.bad(V(r5.id, "<anchor>", "missing:CommandInfo-construction", "no construction site of CommandInfo found in the analysis module"))
+    r5.require_floor(9, "template paths and name provenance")
     rules.append(r5)
 
     return finish(
